@@ -1,4 +1,5 @@
 import GeomV.C01.Model
+import GeomV.C01.Cert
 /-!
 Driver for C01.  `geomv_c01 judge` reads `<case> => <implementation's answer>` lines and prints
   OK <class> | DIFF <class> <why> (implementation ≠ model) | SPEC <class> <why> (answer violates Spec).
@@ -116,6 +117,27 @@ def judgeOp (cap : Nat) (op : Op) (A B : Operand) (rhs : Tok) : String :=
           else if ok then s!"OK {cls}" else s!"OK {cls}-outside-quantifier"
   | _ => s!"DIFF {cls} bad-answer"
 
+/-- certificate verdict for one `op` line (measurement / debugging mode) -/
+def certLine (line : String) : String :=
+  let (lhs, rhs) := splitArrow (tokens line)
+  let two (t : Tok) : Option (Operand × Operand) := do
+    let (a, t) ← parseOperand t
+    let t ← match t with | "|" :: t => some t | _ => none
+    let (b, _) ← parseOperand t
+    let a ← a; let b ← b
+    pure (a, b)
+  match lhs, rhs with
+  | "op" :: o :: t, "ok" :: rt =>
+    match opOf o, two t, parseOperand rt with
+    | some op, some (A, B), some (R, _) =>
+      let ext := extentOf A.rings B.rings
+      let evs := certEvents A B R
+      let c := certCheck (margin * ext) op A B R evs
+      let c0 := certCheck 0 op A B R evs
+      s!"{c} {c0} ev={evs.length} {opName op}-{kindName A}.{kindName B}-{configOf A B}-{pathOf A B op}"
+    | _, _, _ => "skip"
+  | _, _ => "skip"
+
 def fabs (x : Float) : Float := if x < 0 then -x else x
 
 def judgeIe (A B : Operand) (rhs : Tok) : String :=
@@ -193,4 +215,5 @@ def main (args : List String) : IO Unit := do
   match args with
   | ["judge"] => forEachLine fun l => out.putStrLn (judgeLine 1000000 l)
   | ["judge", n] => forEachLine fun l => out.putStrLn (judgeLine (n.toNat?.getD 1000000) l)
+  | ["cert"] => forEachLine fun l => out.putStrLn (certLine l)
   | _ => IO.eprintln "usage: geomv_c01 judge [cap]"
